@@ -32,12 +32,15 @@ def rule_tpl_role(ctx):
             m = re.fullmatch(r"self\.#(\w+)\.#(\w+)\(rhs\.#(\w+)\)", s)
             if not m or m.group(1) != m.group(3):
                 ctx.report(f"role:add_helpers::{qual}", f"impl/src/add_helpers.rs:{t.line}", f"field-wise operator template is `{s}`; expected `self.#f.#op(rhs.#f)` (left operand is the receiver, same field on both sides)", {})
-        # the selector enumerates the fields in order
-        body = A.fn_text(fn)
-        if qual == "tuple_exprs" and "for i in 0..fields.len(){let i=Index::from(i)" not in body:
-            ctx.report("role:tuple_exprs:index", ctx.where(fn.file, fn.node), "`tuple_exprs` no longer walks the indices 0..fields.len() in order", {})
-        if qual == "struct_exprs" and "for field in fields{let field_id=field.ident.as_ref().unwrap()" not in body:
-            ctx.report("role:struct_exprs:ident", ctx.where(fn.file, fn.node), "`struct_exprs` no longer walks the fields in order by their own identifier", {})
+        # the selector enumerates the fields in order (for-loop or iterator chain alike)
+        mac = next((m_ for m_, _ in A.find(fn.block, ("Expr::Macro", "Stmt::Macro")) if A.path_last(m_["mac"]["path"]) == "quote"), None)
+        it = A.iteration_of(mac, fn.block) if mac is not None else None
+        src, pat, stmts = it if it else (None, None, [])
+        sel = [A.render_stmt(x).rstrip(";") for x in stmts if A.kind(x) == "Stmt::Local"]
+        if qual == "tuple_exprs" and not (it and A.wfull(src, "0..fields.len()") and any(A.wfull(x, "let i=Index::from(i)") for x in sel)):
+            ctx.report("role:tuple_exprs:index", ctx.where(fn.file, fn.node), f"`tuple_exprs` no longer walks the indices 0..fields.len() in order (iterates `{src}`, selectors {sel})", {})
+        if qual == "struct_exprs" and not (it and A.wfull(src, "fields") and any(A.wfull(x, "let field_id=field.ident.as_ref().unwrap()") for x in sel)):
+            ctx.report("role:struct_exprs:ident", ctx.where(fn.file, fn.node), f"`struct_exprs` no longer walks the fields in order by their own identifier (iterates `{src}`, selectors {sel})", {})
     # --- enum forms
     fn, ts = templates_in(ctx, "impl/src/add_like.rs", "enum_content")
     f = fn.file
@@ -101,7 +104,13 @@ def rule_tpl_role(ctx):
     wt = A.fn_text(wc)
     n += 1
     ctx.instance("add_where_clauses_for_new_ident:copy")
-    if "if fields.len()>1{quote!(#type_ident:derive_more::core::marker::Copy)}" not in wt:
+    from . import reject as RJ
+
+    copy_chains = []
+    for mac, ps in A.find(wc.block, ("Expr::Macro", "Stmt::Macro")):
+        if A.path_last(mac["mac"]["path"]) == "quote" and T.ir_text(T.to_ir(mac["mac"]["tokens"])).replace(" ", "").endswith(":derive_more::core::marker::Copy"):
+            copy_chains.append(A.alpha(" && ".join(RJ.guard_chain(wc, mac, ps, RJ._lets(wc))), numbered=False))
+    if copy_chains != ["if $.len()>1"]:
         ctx.report("role:scalar:copy", ctx.where(wc.file, wc.node), "the scalar right-hand side is no longer bounded by `Copy` exactly when it is applied to more than one field", {})
     # receiver kinds: Mul by value, MulAssign by &mut
     for rel, kind_ in (("impl/src/mul_like.rs", "RefType::No"), ("impl/src/mul_assign_like.rs", "RefType::Mut")):
@@ -146,7 +155,28 @@ def rule_unary(ctx):
     ctx.instance("not_like::enum:has_unit_type")
     if "let has_unit_type=data_enum.variants.iter().any(|v|v.fields==Fields::Unit)" not in body:
         ctx.report("unary:has_unit_type", ctx.where(f, fn.node), "`has_unit_type` is no longer 'any variant is a unit variant'", {})
-    if body.count("if has_unit_type{body=quote!(derive_more::core::result::Result::Ok(#body))}") != 2 or "let output_type=if has_unit_type{" not in body:
+    # where is a value wrapped in `Result::Ok(..)`? directly under `if has_unit_type`, or through a helper that wraps
+    # under its own first parameter and is handed `has_unit_type`
+    from . import reject as RJ
+
+    def ok_sites(g):
+        out = []
+        for mac, ps in A.find(g.block, ("Expr::Macro", "Stmt::Macro")):
+            if A.path_last(mac["mac"]["path"]) == "quote" and A.TTxt(T.ir_text(T.to_ir(mac["mac"]["tokens"])).replace(" ", "")).same("derive_more::core::result::Result::Ok(#body)"):
+                ch = RJ.guard_chain(g, mac, ps, {})
+                out.append(ch[-1] if ch else "")
+        return out
+
+    wraps = sum(1 for c in ok_sites(fn) if c == "if has_unit_type")
+    for g in A.functions(f):
+        if g is fn or g.block is None or g.impl is not None:
+            continue
+        prm = [A.pat_idents(p_["0"]["pat"]) for p_ in g.node["sig"]["inputs"] if A.kind(p_) == "FnArg::Typed"]
+        if prm and len(prm[0]) == 1 and ok_sites(g) == [f"if {prm[0][0]}"]:
+            for c, _ in A.find(fn.block, "Expr::Call"):
+                if A.kind(c["func"]) == "Expr::Path" and A.path_str(c["func"]) == g.name and c["args"] and A.render(c["args"][0]) == "has_unit_type":
+                    wraps += 1
+    if wraps != 2 or "let output_type=if has_unit_type{" not in body:
         ctx.report("unary:wrap-consistency", ctx.where(f, fn.node), "the `Ok(..)` wrapping of the tuple and named arms and the `Result` output type are no longer all governed by `has_unit_type`", {})
 
 
